@@ -77,7 +77,7 @@ def _guarded_at_callers(P, fn, pidx, depth):
             a = a.a[0]
         if a.op != "param":
             continue  # derived value (hash output, product, negation ...): no guard obligation
-        lits = G.path_literals(gev, bb, P)
+        lits = G.path_literals(gev, bb, P, checks_only=True)
         if R.has_literal(lits, "is_identity", ("param", a.a[1]), False):
             continue
         if depth > 0:
@@ -162,7 +162,7 @@ def run(ctx):
                         c = c.a[0]
                     if c.op == "param":
                         direct.add(c)
-        lits = G.path_literals(ev, bb, P)
+        lits = G.path_literals(ev, bb, P, checks_only=True)
         flag_lits = set()
         for s2 in [ev.ret] + [x[2] for x in R.ctoption_sites(P, fn)]:
             flag_lits |= G.literals(G.formula(s2, P), True)
